@@ -30,14 +30,15 @@ def generate(rng, tier):
             base_svma = rng.choice([0, 0x100000000, 0x400000]) if pres != "hdr" else rng.choice([0, 0x400000])
             enc = dict(pcrel=(pres != "debug" and rng.chance(1, 2)), hdr_enc=rng.choice(["abs8", "gnu"]))
             order_rng = rng.u64()
-            skip = rng.choice([0, 0, 0x800])                   # mapped range starts above the base address
+            skip = rng.choice([0, 0, 0x800]) if pres != "hdr" else rng.choice([0, 0x800])      # mapped range starts above the base address
             pair = []
             for which in range(2):
                 hi_ok = arch == "x86"      # pointer authentication bits live in the upper bits on aarch64
                 ba = (0x10000000 * (mi + 1) + 0x1000 * rng.below(16)) if which == 0 else rng.choice(
                     [0x7f0000000000 + 0x1000 * rng.below(1 << 20), 0x1000 * rng.range(1, 64) + 0x200000 * mi,
                      (1 << 32) * (2 * mi + rng.range(1, 2)) - 0x1000 * rng.range(1, 2),       # image straddles a 4 GiB boundary
-                     ((1 << 63) if hi_ok else (1 << 46)) + 0x1000 * rng.below(1 << 30) + 0x40000000 * mi])
+                     ((1 << 63) if hi_ok else (1 << 46)) + 0x1000 * rng.below(1 << 30) + 0x40000000 * mi]
+                    + ([0, 0] if mi == 1 else []))          # base address 0 is an address like any other
                 fdes = truth.program_fdes(funcs, base_svma)
                 name = "M%d" % mi; mi += 1
                 s.module_dwarf(name, ba + skip, ba + span, ba, base_svma, pres, fdes, Rng(order_rng), shuffle=True, **enc)
